@@ -354,3 +354,66 @@ def _vol(s, e):
     for x, y in zip(s, e):
         v *= (float(y) - float(x))
     return v
+
+
+# ------------------------------------------------------------------ cell strategy (supported configuration: lmin == lmax)
+
+def gen_cell_cfg(r, tier):
+    dim = r.choice([2, 2, 3])
+    l = r.choice([1, 2, 2, 3] if dim == 2 else [1, 2])
+    a = [r.choice(DS.A_CHOICES) for _ in range(dim)]
+    b = [a[d] + r.choice(DS.W_CHOICES) for d in range(dim)]
+    return {"dim": dim, "a": a, "b": b, "lmin": l, "lmax": l, "boundary": True, "margin": r.choice([0.0, 0.5, 0.9, 0.9, 1.0]),
+            "estimator": "keyed", "p_zero": r.choice([0.0, 0.2, 0.4, 0.7]), "p_tie": r.choice([0.0, 0.1, 0.3]),
+            "mode": r.choice(["mix"] * 8 + ["equal", "zero"]), "use_epoch": r.random() < 0.7, "nnoise": r.choice([1, 1, 2]),
+            "jump": r.random() < 0.3, "norm": r.choice([1, 2, "inf"]), "evals": r.randint(1, 5 if tier == "quick" else 8),
+            "max_leaves": 200 if tier == "quick" else 500, "max_points": 2500, "clock_jumps": r.random() < 0.3, "recalc": None}
+
+
+class CellSim(ExtendSplitSim):
+    strategy = "cell"
+
+    def build(self, probes=(), reference=None, f=None):
+        import numpy as np
+        from sparseSpACE.spatiallyAdaptiveCell import SpatiallyAdaptiveCellScheme
+        from sparseSpACE.GridOperation import Integration
+        from sparseSpACE.Grid import TrapezoidalGrid
+        from sparseSpACE.ErrorCalculator import ErrorCalculatorSurplusCell
+        from sparseSpACE.combiScheme import CombiScheme
+        from simcore.env import SimFunction, SimErrorCalculator
+        c = self.cfg
+        DS.install_observers()
+        a, b = np.array(c["a"], dtype=float), np.array(c["b"], dtype=float)
+        self.a, self.b = a, b
+        self.ctx.exc_sig = {"strategy": "cell"}
+        if f is None:
+            f = SimFunction(self.rk, nnoise=c.get("nnoise", 1), probes=probes, a=c["a"], b=c["b"],
+                            jump=(c["a"][0] + 0.3 * (c["b"][0] - c["a"][0])) if c.get("jump") else None, offset=c.get("offset", 0.0))
+        self.f = f
+        self.op = Integration(f=f, grid=TrapezoidalGrid(a=a, b=b, boundary=True), dim=c["dim"],
+                              reference_solution=None if reference is None else np.array(reference, dtype=float), print_level=100, log_level=100)
+        norm = np.inf if c.get("norm", "inf") == "inf" else c["norm"]
+        self.sa = SpatiallyAdaptiveCellScheme(a, b, operation=self.op, norm=norm)
+        self.sa.margin = c["margin"]
+        self.sa.log_util.set_print_level(100)
+        self.sa.log_util.set_log_level(100)
+        if c.get("estimator", "keyed") == "real":
+            self.err = ErrorCalculatorSurplusCell()
+            self.ctx.real.add("ErrorCalculatorSurplusCell")
+        else:
+            self.err = SimErrorCalculator(self.rk, p_zero=c["p_zero"], p_tie=c["p_tie"], mode=c.get("mode", "mix"), use_epoch=c.get("use_epoch", False))
+        return self
+
+    def perform(self, *a, **k):
+        from sparseSpACE.combiScheme import CombiScheme
+        try:
+            return super().perform(*a, **k)
+        finally:
+            # the cell scheme writes class attributes of CombiScheme; scrub them so that no state leaks into the next run
+            for attr in ("dim", "lmin"):
+                if attr in CombiScheme.__dict__:
+                    delattr(CombiScheme, attr)
+
+    def structure_key(self):
+        return sorted((tuple(float(x).hex() for x in o.start), tuple(float(x).hex() for x in o.end), bool(getattr(o, "active", True)))
+                      for o in self.leaves())
